@@ -22,7 +22,7 @@ Definition check (c : case) : bool * bool * bool :=
                 then let '(d', l') := compile_chain (p_type p) (p_units p) (map (fun r => (hd 0 r, true)) (p_rows p)) in
                      eqb_locs locs l' && eqb_nats (d_units d) (d_units d') && Nat.eqb (length (d_levels d)) (length (d_levels d'))
                 else let '(dm, lm) := compile_model (p_type p) (c_hints c) (p_rows p) in
-                     eqb_add dm d && eqb_lists same_locs lm locs) in
+                     hints_ok (p_units p) (p_rows p) (c_hints c) && eqb_add dm d && eqb_lists same_locs lm locs) in
   let total := 2 ^ (p_units p - 1) in
   ( ok && forallb (fun q => let '(tg, t1, t2, cnts) := q in
                             match oracle_query p d locs tg t1 t2 with Some m => eqb_nats cnts m | None => false end) (c_queries c),
